@@ -6,7 +6,7 @@ usage: seedtest.py <seed-id> <worktree> [check ids...]
  3. applies the patch to /repo, runs the given checks (quick), restores /repo
 """
 import json, os, subprocess, sys, glob, shutil, time
-ENV = dict(os.environ, GOFLAGS="-mod=mod", GOPROXY="off", GOSUMDB="off", GOTOOLCHAIN="local")
+ENV = dict(os.environ, GOFLAGS="-mod=mod", GOPROXY="off", GOSUMDB="off", GOTOOLCHAIN="local", VERIF_EVIDENCE_DIR="/verif/out/seed-evidence")
 BASE = "./bint ./eth ./jrpc2 ./shovel/config ./shovel/glf ./wctx ./wos ./wslog".split()
 
 def run(cmd, cwd, timeout=1800):
